@@ -526,7 +526,7 @@ func (u *Unit) jsonUnmarshal(fr *Frame, st *State, data Val, target Val, sig *ty
 	b := u.termOf(data)
 	et := sig.Results().At(0).Type()
 	errv := u.fresh(SInt, "jsonerr")
-	u.fact(fmt.Sprintf("(assert (> %s 0))", errv.S))
+	u.fact(fmt.Sprintf("(assert (> %s 1000000))", errv.S))
 	ts, _ := target.(*Scalar)
 	var p *PtrV
 	if ts != nil {
@@ -576,7 +576,7 @@ func (u *Unit) jsonUnmarshal(fr *Frame, st *State, data Val, target Val, sig *ty
 
 func (u *Unit) fmtErrorf(fr *Frame, st *State, args []Val, sig *types.Signature, where string) Val {
 	r := u.fresh(SInt, "errorf")
-	u.fact(fmt.Sprintf("(assert (> %s 0))", r.S))
+	u.fact(fmt.Sprintf("(assert (> %s 1000000))", r.S)) // distinct from nil and from every sentinel
 	et := sig.Results().At(0).Type()
 	out := &Scalar{T: r, Typ: et}
 	// locate the %w operand
